@@ -174,10 +174,11 @@ struct Spec {
     entry: usize,
     exit: usize,
     sizes: Vec<u8>,
+    gap: bool,
 }
 impl Spec {
     fn json(&self) -> Value {
-        json!({"n": self.n, "edges": self.edges, "entry": self.entry, "exit": self.exit, "sizes": self.sizes})
+        json!({"n": self.n, "edges": self.edges, "entry": self.entry, "exit": self.exit, "sizes": self.sizes, "gap": self.gap})
     }
     fn parse(v: &Value) -> Spec {
         Spec {
@@ -186,6 +187,7 @@ impl Spec {
             entry: v["entry"].as_u64().unwrap() as usize,
             exit: v["exit"].as_u64().unwrap() as usize,
             sizes: v["sizes"].as_array().unwrap().iter().map(|x| x.as_u64().unwrap() as u8).collect(),
+            gap: v["gap"].as_bool().unwrap_or(false),
         }
     }
     fn build(&self) -> il::Function {
@@ -194,8 +196,13 @@ impl Spec {
             cfg.new_block().unwrap();
         }
         for b in 0..self.n {
-            for _ in 0..self.sizes[b] {
+            // `gap`: instruction indices start at 1 (an instruction was removed), so index != position
+            let extra = if self.gap && self.sizes[b] > 0 { 1 } else { 0 };
+            for _ in 0..self.sizes[b] + extra {
                 cfg.block_mut(b).unwrap().nop();
+            }
+            if extra == 1 {
+                cfg.block_mut(b).unwrap().remove_instruction(0).unwrap();
             }
         }
         for i in 0..self.n {
@@ -502,9 +509,16 @@ fn run(ctx: &Ctx) -> Acc {
                                 v
                             })
                             .collect();
-                        let spec = Spec { n, edges, entry, exit, sizes };
+                        let gapped = sizes.iter().any(|s| *s >= 2);
+                        let spec = Spec { n, edges, entry, exit, sizes, gap: false };
                         ctx.trace(|| format!("cfg\t{}", json!({"cfg": spec.json()})));
                         check(&mut acc, &spec, thorough, None);
+                        if gapped {
+                            // the same graph with non-dense instruction indices (as after remove_instruction)
+                            let spec = Spec { gap: true, ..spec };
+                            ctx.trace(|| format!("cfg\t{}", json!({"cfg": spec.json()})));
+                            check(&mut acc, &spec, thorough, None);
+                        }
                     }
                 }
             }
@@ -512,7 +526,7 @@ fn run(ctx: &Ctx) -> Acc {
     }
     acc.count("traces", acc.get("transitions"));
     if ctx.shard == 0 {
-        acc.sample(json!({"cfg": Spec { n: 3, edges: 0b001_100_010, entry: 0, exit: 2, sizes: vec![1, 0, 2] }.json(), "analysis": 1, "rot": 0, "note": "loop 0->1->2->0 forces the counter to the top"}));
+        acc.sample(json!({"cfg": Spec { n: 3, edges: 0b001_100_010, entry: 0, exit: 2, sizes: vec![1, 0, 2], gap: false }.json(), "analysis": 1, "rot": 0, "note": "loop 0->1->2->0 forces the counter to the top"}));
     }
     acc
 }
